@@ -355,13 +355,26 @@ Definition list_bool_eqb (a b : list bool) : bool := list_eqb Bool.eqb a b.
 (* every copy of id [i] in the batch (the code verifies each copy it has not attached yet) *)
 Definition copies (batch : list rawchange) (i : N) : list rawchange := filter (fun c => rc_id c =? i) batch.
 
+(* what a successful call must have announced in Added: every id now in memory that was not in memory AND on disk
+   before, and every id now on disk that was not on disk before.
+   [fresh_ids_legacy] is the first version of this predicate; it also counted an id that was (and still is) on disk but
+   is not reachable by the iteration -- a non-root change with empty TreeHeadIds, which Tree.canAttachOrRemove attaches
+   (an orphan: stored, never iterated, never a head) -- and so demanded that such a change be announced again by every
+   later successful call.  That is false of the code and of the model (Properties/C02.v,
+   c02_spec_legacy_orphan_refuted); the orphan itself is authentic and authorised, so C02 is not concerned. *)
+Definition fresh_ids (iter stored iter' stored' : list N) : list N :=
+  filter (fun i => negb (memN i iter) || negb (memN i stored)) iter' ++
+  filter (fun i => negb (memN i stored)) stored'.
+Definition fresh_ids_legacy (iter stored iter' stored' : list N) : list N :=
+  filter (fun i => negb (memN i iter) || negb (memN i stored)) (iter' ++ stored').
+
 Fixpoint spec_dels (ids : list rid) (sts : list state) (root : N) (derived : bool)
          (known : list rawchange) (heads iter stored : list N) (ds : list delivery) : bool :=
   match ds with
   | [] => true
   | d :: rest =>
       if d_ok d then
-        let fresh := filter (fun i => negb (memN i iter) || negb (memN i stored)) (d_iter d ++ d_stored d) in
+        let fresh := fresh_ids iter stored (d_iter d) (d_stored d) in
         let newk := flat_map (fun i => match find_rc (d_batch d) i with Some c => [c] | None => [] end) (d_added d) in
         let known' := newk ++ known in
         (* nothing disappears; everything new in memory or on disk was announced as added and came with the batch *)
